@@ -65,6 +65,7 @@ for hdr in ("If-Match", "If-None-Match"):
         [{"kind": "unquoted-current"}],
         [{"kind": "halfquoted-current"}],
         [{"kind": "literal", "v": ""}],
+        [{"kind": "literal", "v": " "}],
     ):
         for sep in (", ", ","):
             if len(items) == 1 and sep == ",":
